@@ -9,6 +9,7 @@ import (
 	"pgregory.net/rapid"
 
 	"verif/lib/ev"
+	"verif/lib/sched"
 )
 
 // runVisitor runs Visitor under a watchdog; timedOut means it did not return.
@@ -48,6 +49,7 @@ func (w *World) runVisitor(i, shards, conc int, inject func(shard, idx int) erro
 func TestC10(t *testing.T) {
 	st := ev.Get("C10", "TestC10")
 	rapid.Check(t, func(t *rapid.T) {
+		sched.SeedRand(t)
 		cfg := genCfg(t, -1, false)
 		w := NewWorld(t, cfg, st)
 		defer w.Teardown()
